@@ -13,9 +13,12 @@ pub fn avoid_all() -> Avoid {
         alias_wildcard: true,
         resub_qos: true,
         unsub_shape: true,
-        empty_nonretained: true,
-        unsub_in_group: true,
+        // R9 was repaired in /repo: the region is no longer avoided
+        empty_nonretained: false,
+        // R11 was repaired in /repo
+        unsub_in_group: false,
         group_stall: true,
+        recycled_id: true,
     }
 }
 
@@ -75,15 +78,51 @@ pub fn main_campaign() -> SimCampaign {
     }
 }
 
+/// Known finding R6: broker topic alias (v5 subscriber with topic-alias-maximum > 0) on a
+/// wildcard filter: the alias is keyed by filter, so a second topic arrives under the first's alias
+pub fn probe_r6() -> SimCampaign {
+    let mut c = main_campaign();
+    c.name = "probe_r6_alias_wildcard";
+    c.gen.p_alias = 100;
+    c.gen.p_v5 = 100;
+    c.gen.max_clients = 3;
+    c.gen.w_burst = 0;
+    c.gen.filters = ["a/+", "a/#", "#", "+/b"].iter().map(|s| s.to_string()).collect();
+    c.flags.avoid.alias_wildcard = false;
+    c.quick = 300;
+    c.thorough = 3000;
+    c.nontrivial = |s, _| if s.forwards > 1 { Some("alias".into()) } else { None };
+    c.probes = vec!["delivery:topic_changed", "delivery:unknown_topic_alias"];
+    c
+}
+
+/// Known finding R7: repeating a subscription with another QoS: SUBACK grants the new QoS,
+/// forwards keep the old one
+pub fn probe_r7() -> SimCampaign {
+    let mut c = main_campaign();
+    c.name = "probe_r7_resubscribe_qos";
+    c.gen.max_clients = 3;
+    c.gen.w_subscribe = 20;
+    c.gen.w_burst = 0;
+    c.gen.filters = ["a/#", "a"].iter().map(|s| s.to_string()).collect();
+    c.flags.avoid.resub_qos = false;
+    c.flags.strict_resub = true;
+    c.quick = 300;
+    c.thorough = 3000;
+    c.nontrivial = |s, _| if s.forwards > 0 { Some("resub".into()) } else { None };
+    c.probes = vec!["delivery:wrong_qos", "delivery:outside_subscription_lifetime", "delivery:duplicate_or_out_of_order"];
+    c
+}
+
 pub fn plan(_tier: Tier) -> Plan {
     Plan {
-        campaigns: vec![Box::new(main_campaign())],
+        campaigns: vec![Box::new(main_campaign()), Box::new(probe_r6()), Box::new(probe_r7())],
         enumerators: vec![],
         rule: "Histories of connect/subscribe/unsubscribe/publish(QoS0-2, bursts up to 260)/release/ack/drain/turn/settle ops by 2-5 well-behaved clients against the real router stepped turn by turn, over generated router configurations (segment size/count, outgoing batch size). Non-trivial: a client holds >=2 subscriptions on overlapping filters, a publish matches >=2 of them, at least one forward was observed and at least one of {inflight-full pause, busy/Unschedule pause, park-then-wake} occurred; distinct by hash of the whole history.".into(),
         assumptions: vec![
             "The router is single-threaded; links interact with it only through the event channel and two mutex-protected buffers, so every real schedule is a partition of the event sequence into turns plus drain points — which is what the generator draws".into(),
             "Completeness is asserted only for streams whose unread backlog stayed below (segment_count-1)*segment_size bytes (retention-relaxed streams keep the safety clauses)".into(),
-            "Known-finding regions R6 (broker topic alias with wildcard filter), R7 (re-subscribe with another QoS), R8 (UNSUBSCRIBE shapes), R9 (non-retained empty payload) are excluded by construction and probed elsewhere".into(),
+            "Known-finding regions R6 (broker topic alias with wildcard filter), R7 (re-subscribe with another QoS), R8 (UNSUBSCRIBE shapes) are excluded by construction and probed elsewhere".into(),
         ],
         min_nontrivial: 20,
     }
